@@ -165,8 +165,8 @@ func shapeVal(s string, u *pb.Update) {
 
 type notiVec struct {
 	Prefix, Path, Val, Ts, State string
-	Atomic                        bool
-	Nup, Ndel                     int
+	Atomic                       bool
+	Nup, Ndel                    int
 }
 
 func ingestNoti(v notiVec, glue bool) []step {
@@ -240,12 +240,12 @@ type reqStream struct {
 	sent int
 }
 
-func (r *reqStream) Context() context.Context     { return r.ctx }
-func (r *reqStream) SetHeader(metadata.MD) error  { return nil }
-func (r *reqStream) SendHeader(metadata.MD) error { return nil }
-func (r *reqStream) SetTrailer(metadata.MD)       {}
-func (r *reqStream) SendMsg(interface{}) error    { return nil }
-func (r *reqStream) RecvMsg(interface{}) error    { return nil }
+func (r *reqStream) Context() context.Context         { return r.ctx }
+func (r *reqStream) SetHeader(metadata.MD) error      { return nil }
+func (r *reqStream) SendHeader(metadata.MD) error     { return nil }
+func (r *reqStream) SetTrailer(metadata.MD)           {}
+func (r *reqStream) SendMsg(interface{}) error        { return nil }
+func (r *reqStream) RecvMsg(interface{}) error        { return nil }
 func (r *reqStream) Send(*pb.SubscribeResponse) error { r.sent++; return nil }
 func (r *reqStream) Recv() (*pb.SubscribeRequest, error) {
 	if r.i < len(r.reqs) {
